@@ -106,6 +106,13 @@ class RebuildProp(Prop):
             f["dest_pre"] = dest_fn(fi, f) if dest_fn else "absent"
         c = {"version": v, "P": P, "tree": t, "nsearch": kw.pop("nsearch", 1 + rng.randrange(2)),
              "unrelated": 2, "clauses": list(self.clauses)}
+        r = rng.random()
+        # (a v2-only single-file metafile without info.length is indistinguishable from a directory
+        # holding one file of the same name; this tool reads it as the latter - not generated)
+        if (r < 0.2 and not t.get("single")) or (r < 0.1 and v != 2):
+            c["meta_src"] = "ref"           # metafile from the reference encoder, with keys this tool never writes
+            c["extra_keys"] = True
+        c["rel_paths"] = rng.random() < 0.25
         c.update(kw)
         return c
 
